@@ -3,6 +3,8 @@ package main
 import (
 	"fmt"
 	"go/token"
+	"go/types"
+	"regexp"
 	"sort"
 	"strings"
 
@@ -128,6 +130,30 @@ func ruleC10(c *Ctx) {
 	}
 	if fn := c.Anchor(rule, fRep+"SetRevisionCounter"); fn != nil {
 		c.Guard(rule, fn, CallsTo(fn, fRep+"writeRevisionCounter"), "set counter", nil, atom("mode == RW", eqAtom(`"RW"`, "$0.mode")))
+	}
+	// the persisted block is a function of the counter alone: the buffer handed to the file is
+	// created (zero-filled) by this call, never state that survives from an earlier write
+	// (a shorter decimal would keep the old trailing digits: 12 then 9 persists "92")
+	if fn := c.Anchor(rule, fRep+"writeRevisionCounter"); fn != nil {
+		R := NewRenderer(fn)
+		n := 0
+		eachInstr(fn, func(in ssa.Instruction) {
+			cl, ok := in.(*ssa.Call)
+			if !ok || len(cl.Call.Args) < 2 || !strings.HasSuffix(CalleeName(in), ".WriteAt") {
+				return
+			}
+			n++
+			buf := cl.Call.Args[len(cl.Call.Args)-2]
+			key := FnName(fn) + " | block written is built by this call"
+			if why := persistentBuffer(buf, 0); why == "" {
+				c.OK(rule, key, c.P.InstrPos(in), "buffer "+R.V(buf)+" is allocated (zeroed) in this call", true)
+			} else {
+				c.Bad(rule, key, c.P.InstrPos(in), "the block written to the counter file is "+why+": bytes of an earlier, longer value survive and a stale count is persisted", nil)
+			}
+		})
+		if n == 0 {
+			c.Bad(rule, FnName(fn)+" | block written is built by this call", "", "no WriteAt to the counter file found", nil)
+		}
 	}
 	// GetRevisionCounter refreshes from the file
 	if fn := c.Anchor(rule, fRep+"GetRevisionCounter"); fn != nil {
@@ -296,8 +322,26 @@ func ruleC12(c *Ctx) {
 				c.OK(rule, key, c.P.InstrPos(in), "exempt: "+why, false)
 				return
 			}
+			// the object whose attribute changed: the metadata write must be given that object
+			obj := strings.TrimSuffix(strings.TrimPrefix(a, "&"), "."+f)
+			// diskData is keyed by disk.Name: diskData[d.Name] is d when d itself came out of diskData
+			if m := diskByOwnName.FindStringSubmatch(obj); m != nil {
+				obj = m[1]
+			}
+			// Name = V is persisted as the name of V's metadata file
+			nameFile := ""
+			if isDisk && f == "Name" {
+				nameFile = ",(" + R.V(s.Val) + ` + ".meta"))`
+			}
 			ws := Query{Fn: fn, Start: in, Gen: func(x ssa.Instruction) bool {
-				return isPlainCall(x) && (callMatches(x, fRep+"encodeToFile") || callMatches(x, fRep+"writeVolumeMetaData") || callMatches(x, fRep+"updateParentDisk") || callMatches(x, fRep+"updateParentRevisionCounter"))
+				if !isPlainCall(x) {
+					return false
+				}
+				if callMatches(x, fRep+"encodeToFile") {
+					got := callRender(R, x)
+					return strings.Contains(got, ","+obj+",") || strings.Contains(got, ",&"+obj+",")
+				}
+				return callMatches(x, fRep+"writeVolumeMetaData") || callMatches(x, fRep+"updateParentDisk") || callMatches(x, fRep+"updateParentRevisionCounter")
 			}, IsSite: func(x ssa.Instruction) bool {
 				for _, r := range successReturns(fn) {
 					if r == x {
@@ -306,6 +350,16 @@ func ruleC12(c *Ctx) {
 				}
 				return false
 			}}.Run()
+			if len(ws) > 0 && nameFile != "" {
+				for _, call := range CallsTo(fn, fRep+"encodeToFile") {
+					if !strings.HasSuffix(callRender(R, call), nameFile) {
+						continue
+					}
+					if len(Query{Fn: fn, IsSite: func(x ssa.Instruction) bool { return x == in }, GenEdge: successEdgesOfCall(fn, call)}.Run()) == 0 {
+						ws = nil
+					}
+				}
+			}
 			if len(ws) > 0 && persistedFirst(fn, s) {
 				c.OK(rule, key, c.P.InstrPos(in), "persist-then-publish: the store is cut off by the success edge of a metadata write that was given the stored value", true)
 			} else if len(ws) == 0 {
@@ -444,6 +498,8 @@ func ruleC13Persist(c *Ctx) {
 
 // persistedFirst: the store's value was passed to writeVolumeMetaData / encodeToFile whose
 // success edge dominates the store (persist, then publish in memory).
+var diskByOwnName = regexp.MustCompile(`^\$0\.diskData\[(\$0\.diskData\[.*\])\.Name\]$`)
+
 func persistedFirst(fn *ssa.Function, s *ssa.Store) bool {
 	for _, call := range CallsTo(fn, fRep+"writeVolumeMetaData", fRep+"encodeToFile") {
 		carries := false
@@ -730,4 +786,46 @@ func keysOf(m map[string]int64) []string {
 	}
 	sort.Strings(out)
 	return out
+}
+
+// persistentBuffer: "" when the byte slice is created by the current call (make, a local
+// array, the result of a call); otherwise a description of the state it comes from.
+func persistentBuffer(v ssa.Value, depth int) string {
+	if depth > 4 {
+		return "of unknown origin"
+	}
+	switch x := strip(v).(type) {
+	case *ssa.MakeSlice, *ssa.Call, *ssa.Alloc, *ssa.Const:
+		return ""
+	case *ssa.Slice:
+		return persistentBuffer(x.X, depth+1)
+	case *ssa.Phi:
+		for _, e := range x.Edges {
+			if w := persistentBuffer(e, depth+1); w != "" {
+				return w
+			}
+		}
+		return ""
+	case *ssa.UnOp:
+		if x.Op == token.MUL {
+			switch a := x.X.(type) {
+			case *ssa.FieldAddr:
+				return "a field that outlives the call (" + fieldName(a) + ")"
+			case *ssa.Global:
+				return "a package variable (" + a.Name() + ")"
+			}
+		}
+	case *ssa.Parameter:
+		return "supplied by the caller"
+	}
+	return "of unknown origin"
+}
+
+func fieldName(a *ssa.FieldAddr) string {
+	if pt, ok := a.X.Type().Underlying().(*types.Pointer); ok {
+		if st, ok := pt.Elem().Underlying().(*types.Struct); ok {
+			return st.Field(a.Field).Name()
+		}
+	}
+	return "?"
 }
